@@ -12,8 +12,17 @@ use std::collections::BTreeMap;
 /// operations freely.
 #[derive(Serialize, Deserialize, Clone, Debug, PartialEq, Eq, Hash)]
 pub enum Op {
-    /// make_query(..) + make_base_node(..) for query spec `q`.
-    New { h: usize, q: usize },
+    /// make_query(..) + make_base_node(..) for query spec `q`; `gap_ms` virtual milliseconds pass
+    /// between the two calls (the query is built, and its base node is made a moment later).
+    New {
+        h: usize,
+        q: usize,
+        #[serde(default)]
+        gap_ms: u64,
+    },
+    /// add_rules(kb, extra_clauses[c]): the knowledge base grows between queries. Every query
+    /// instance is dropped first (instances borrow the knowledge base).
+    Assert { c: usize },
     /// next_solution(handle)
     Next { h: usize },
     /// solve(handle)
@@ -61,6 +70,9 @@ pub struct Scenario {
     pub family: String,
     pub clauses: Vec<Clause>,
     pub queries: Vec<QuerySpec>,
+    /// clauses that `Op::Assert` adds to the knowledge base during the history
+    #[serde(default)]
+    pub extra_clauses: Vec<Clause>,
     pub history: Vec<Op>,
     pub time: TimeModel,
     pub sched: SchedPolicy,
